@@ -178,7 +178,8 @@ impl HuffmanEncoder {
                 code: flipped,
                 len: len as u32,
             });
-            code += 1;
+            // NOTE: the last code word of a complete code that is 32 bits deep is all ones.
+            code = code.wrapping_add(1);
             prev_len = len;
         }
         code_book.sort_unstable_by_key(|entry| entry.symbol);
@@ -250,6 +251,15 @@ impl Encoder for HuffmanEncoder {
             tree.append_symbols(0, &mut symbols);
         }
         symbols.sort();
+        // Code words are u32s.  When the optimal code is deeper than 32 bits (symbol frequencies
+        // that fall off like the Fibonacci numbers over 34 or more symbols) fall back to a
+        // fixed-width prefix code, which needs at most 32 bits for any alphabet of u32 symbols.
+        if symbols.iter().any(|(len, _)| *len > 32) {
+            let width = std::cmp::max(symbols.len(), 2).next_power_of_two().ilog2() as u8;
+            for (len, _) in symbols.iter_mut() {
+                *len = width;
+            }
+        }
         let code_book = Self::build_code_book(symbols);
         Self::from_code_book(code_book)
     }
